@@ -14,7 +14,13 @@ type GoEntry struct {
 	Entry *ssa.Function
 	Multi bool // the go statement sits in a loop (several instances run concurrently)
 	Recv  *types.Named
+	// Parent is the goroutine entry whose own body contains this go statement (nil when the
+	// goroutine is started by a constructor or by a function that is not itself an entry).
+	Parent *GoEntry
 }
+
+// Helper: a single child goroutine started by another goroutine of the same discipline.
+func (e *GoEntry) Helper() bool { return e.Parent != nil && !e.Multi }
 
 // Disc is one discipline struct with its constructor(s), goroutines and public methods.
 type Disc struct {
@@ -70,6 +76,13 @@ func (p *Prog) GoEntries() []*GoEntry {
 			e.Recv = namedOrigin(e.Entry.Signature.Recv().Type())
 		}
 		out = append(out, e)
+	}
+	for _, e := range out {
+		for _, e2 := range out {
+			if e2 != e && e2.Entry != nil && e.Stmt.Parent() == e2.Entry {
+				e.Parent = e2
+			}
+		}
 	}
 	return out
 }
